@@ -256,12 +256,19 @@ func (r *pnRun) learn(blocks ...*nom.AccountBlock) {
 func (r *pnRun) check(n *pnNode, what string) bool {
 	c := r.c
 	ok := true
+	// the failing input includes what happened to the node's listener table
+	fail := func(format string, a ...interface{}) {
+		if n.ls != nil && len(n.ls.ops) > 0 {
+			format += " [register / unregister operations on this node's momentum event manager before: " + strings.ReplaceAll(n.ls.opsText(), "%", "%%") + "]"
+		}
+		r.fail(format, a...)
+	}
 	if !n.ls.verify(n.name, what, r.fail) {
 		ok = false
 	}
 	for _, rd := range n.readers {
 		if len(rd.panics) > 0 {
-			r.fail("%s after %s: a reader inside a momentum notification (%s) panicked: %s", n.name, what, rd.where, rd.panics[0])
+			fail("%s after %s: a reader inside a momentum notification (%s) panicked: %s", n.name, what, rd.where, rd.panics[0])
 			rd.panics = nil
 			ok = false
 		}
@@ -277,13 +284,13 @@ func (r *pnRun) check(n *pnNode, what string) bool {
 			var ids []string
 			for i, b := range unc {
 				if b == nil {
-					r.fail("%s after %s: uncommitted block %d of %s is nil", n.name, what, i, addrName(a))
+					fail("%s after %s: uncommitted block %d of %s is nil", n.name, what, i, addrName(a))
 					ok = false
 					return
 				}
 				ids = append(ids, pnId(b.Identifier()))
 				if own := (types.HashHeight{Hash: b.PreviousHash, Height: b.Height - 1}); own != prev {
-					r.fail("%s after %s: the uncommitted blocks of %s are [%s]; block %s has previous %s, but the chain so far ends in %s (last confirmed block of the account in the ledger: %s)",
+					fail("%s after %s: the uncommitted blocks of %s are [%s]; block %s has previous %s, but the chain so far ends in %s (last confirmed block of the account in the ledger: %s)",
 						n.name, what, addrName(a), strings.Join(ids, " "), pnId(b.Identifier()), pnId(own), pnId(prev), pnId(confirmed))
 					ok = false
 					return
@@ -297,7 +304,7 @@ func (r *pnRun) check(n *pnNode, what string) bool {
 			// the pool's frontier is the head of that chain, and shows the ledger's block at the confirmed height
 			fs := n.ch.GetFrontierAccountStore(a)
 			if got := fs.Identifier(); got != prev {
-				r.fail("%s after %s: the pool's frontier of %s is %s; the account's last confirmed block in the ledger is %s and the pool lists %d uncommitted block(s) [%s] - the frontier is not the ledger frontier extended by the pooled blocks (a block of a momentum that is not on the chain is kept as stable)",
+				fail("%s after %s: the pool's frontier of %s is %s; the account's last confirmed block in the ledger is %s and the pool lists %d uncommitted block(s) [%s] - the frontier is not the ledger frontier extended by the pooled blocks (a block of a momentum that is not on the chain is kept as stable)",
 					n.name, what, addrName(a), pnId(got), pnId(confirmed), len(unc), strings.Join(ids, " "))
 				ok = false
 				return
@@ -305,7 +312,7 @@ func (r *pnRun) check(n *pnNode, what string) bool {
 			if confirmed.Height > 0 {
 				got, err := fs.ByHeight(confirmed.Height)
 				if err != nil || got == nil || got.Identifier() != confirmed {
-					r.fail("%s after %s: the pool's frontier store of %s shows %v at the confirmed height %d, the ledger holds %s", n.name, what, addrName(a), got, confirmed.Height, pnId(confirmed))
+					fail("%s after %s: the pool's frontier store of %s shows %v at the confirmed height %d, the ledger holds %s", n.name, what, addrName(a), got, confirmed.Height, pnId(confirmed))
 					ok = false
 					return
 				}
@@ -314,13 +321,13 @@ func (r *pnRun) check(n *pnNode, what string) bool {
 			for _, id := range sortedIds(r.known[a]) {
 				has := n.ch.GetPatch(a, id) != nil
 				if has && !pooled[id] {
-					r.fail("%s after %s: GetPatch(%s, %s) answers a patch, but the block is not on the account's uncommitted chain [%s] (last confirmed %s): a block that was displaced / rolled back / never accepted is still held by the pool - sync and gossip take a block for which GetPatch answers as already applied",
+					fail("%s after %s: GetPatch(%s, %s) answers a patch, but the block is not on the account's uncommitted chain [%s] (last confirmed %s): a block that was displaced / rolled back / never accepted is still held by the pool - sync and gossip take a block for which GetPatch answers as already applied",
 						n.name, what, addrName(a), pnId(id), strings.Join(ids, " "), pnId(confirmed))
 					ok = false
 					return
 				}
 				if !has && pooled[id] {
-					r.fail("%s after %s: the pool lists %s/%s as uncommitted (chain [%s] on the last confirmed block %s) but holds no patch for it: the block was not inserted into this pool state - it is a leftover of a ledger state that no longer exists (a deleted momentum)",
+					fail("%s after %s: the pool lists %s/%s as uncommitted (chain [%s] on the last confirmed block %s) but holds no patch for it: the block was not inserted into this pool state - it is a leftover of a ledger state that no longer exists (a deleted momentum)",
 						n.name, what, addrName(a), pnId(id), strings.Join(ids, " "), pnId(confirmed))
 					ok = false
 					return
@@ -328,7 +335,7 @@ func (r *pnRun) check(n *pnNode, what string) bool {
 			}
 		}
 	}); p != "" {
-		r.fail("%s after %s: reading the pool panics: %s", n.name, what, firstLine(p))
+		fail("%s after %s: reading the pool panics: %s", n.name, what, firstLine(p))
 		ok = false
 	}
 	c.Hit("pn-check")
